@@ -128,7 +128,14 @@ pub(crate) fn extract_variable(
 
     for item in items {
         let item_pos = item.position();
-        if item_pos.contains_offset(offset) {
+        // After a parse error, items can overlap and an expression
+        // can start before the expression that encloses it. Only
+        // rewrite an item whose text contains both, in order.
+        if item_pos.contains_offset(offset)
+            && item_pos.start_offset <= enclosing_block_level_expr.position.start_offset
+            && enclosing_block_level_expr.position.start_offset <= expr.position.start_offset
+            && expr.position.end_offset <= item_pos.end_offset
+        {
             // All the items before this one.
             result.push_str(&src[..item_pos.start_offset]);
 
@@ -153,6 +160,10 @@ pub(crate) fn extract_variable(
 
             break;
         }
+    }
+
+    if result.is_empty() {
+        return Err("The selected expression is not inside a single definition.".to_owned());
     }
 
     Ok(result)
